@@ -74,6 +74,15 @@ def _mutate(ctx, sim, nsteps):
         a = actors[ch.draw(len(actors), "sched")]
         g = next(x for x in sim.graphs if x.name == a) if isinstance(a, str) else sim.graphs[0]
         sim.step(a, g)
+        if ch.coin(1, 8, "mid-history-serialise"):
+            # documents are written at any point of a history, not only at its end (a stale cache would show later)
+            try:
+                sim.graphs[0].h.to_json()
+                ctx.probe("serialised_mid_history")
+                ctx.ev("query", "to_json")
+            except Exception as e:  # noqa: BLE001
+                ctx.violate("serialise", f"to_json-raised:{type(e).__name__}", {"error": repr(e)[:300], "where": "mid-history"})
+                return
 
 
 # ---------------------------------------------------------------------------------------------
